@@ -61,12 +61,13 @@ def exhaustive(tier):
     leave the value untouched."""
     for kind in ("list", "dict"):
         for k in (2, 3, 4):
-            for op in ("append", "setitem", "insert", "setdefault", "update1"):
+            for op in ("append", "setitem", "insert", "setdefault", "update1", "update-pairs", "update-kw", "ior"):
                 if (kind == "list") != (op in ("append", "setitem", "insert")):
                     continue
                 for i in (range(-5, 6) if op in ("insert", "setitem") else (0,)):
                     for bad_item in (False, True):
-                        yield {"mode": "limit", "kind": kind, "k": k, "what": op, "i": i, "bad_item": bad_item}
+                        for held in ("assigned", "default"):  # the container was assigned by the user, or is still the field's default
+                            yield {"mode": "limit", "kind": kind, "k": k, "what": op, "i": i, "bad_item": bad_item, "held": held}
     # a configuration that the list already holds, edited into a state its own schema rejects, is offered to the
     # same list again (append / insert / item replacement): the rejection must leave the list as it was
     for configtype in (False, True):
@@ -170,18 +171,25 @@ def _limit_case(case, R):
     R.label("limit:" + case["kind"])
     schema = cc.Schema()
     rule = lambda cfg, value: run_validator("v_short", value)  # at most three items
+    start = list(range(10, 10 + case["k"])) if case["kind"] == "list" else {"k%d" % j: j for j in range(case["k"])}
+    kw = {"default": (lambda: type(start)(start))} if case.get("held") == "default" else {}
     if case["kind"] == "list":
-        schema.box = cc.ListField(cc.IntField(min=0), validator=rule)
-        start = list(range(10, 10 + case["k"]))
+        schema.box = cc.ListField(cc.IntField(min=0), validator=rule, **kw)
     else:
-        schema.box = cc.DictField(cc.StringField(), cc.IntField(min=0), validator=rule)
-        start = {"k%d" % j: j for j in range(case["k"])}
+        schema.box = cc.DictField(cc.StringField(), cc.IntField(min=0), validator=rule, **kw)
     schema.other = cc.IntField(default=1)
-    cfg = schema()
-    try:
-        cfg.box = start
-    except Exception:
-        return  # four items: the whole assignment is rejected by the rule, nothing to do
+    if case.get("held") == "default":
+        if len(start) > 3:
+            return
+        cfg = schema()
+        if cc.is_value_defined(cfg, "box"):
+            return
+    else:
+        cfg = schema()
+        try:
+            cfg.box = start
+        except Exception:
+            return  # four items: the whole assignment is rejected by the rule, nothing to do
     box = cfg.box
     before = worlds.snapshot(cfg, cc, with_ids=True)
     item = -1 if case["bad_item"] else 99
@@ -195,8 +203,14 @@ def _limit_case(case, R):
             box[i] = item
         elif what == "setdefault":
             box.setdefault("new", item)
-        else:
+        elif what == "update1":
             box.update({"new": item})
+        elif what == "update-pairs":
+            box.update([("new", item)])
+        elif what == "update-kw":
+            box.update(new=item)
+        else:
+            box |= {"new": item}
         raised = False
     except Exception:
         raised = True
